@@ -6,6 +6,7 @@ import (
 	"testing"
 
 	"pgregory.net/rapid"
+	"seehuhn.de/go/pdf"
 	"seehuhn.de/go/pdf/verif/internal/gen"
 	"seehuhn.de/go/pdf/verif/internal/vt"
 )
@@ -77,7 +78,7 @@ func genCase(t *rapid.T) Case {
 		c.Pool = append(c.Pool, gen.Obj(gen.ObjOpts{MaxDepth: 1, NoNil: true, MaxStr: 65, MaxName: 65, MaxWidth: 3}).Draw(t, "value"))
 	}
 	c.UseMap = c.Tree == "name" && rapid.IntRange(0, 3).Draw(t, "usemap") == 0
-	c.Version = rapid.SampledFrom([]int{0, 0, 1, 2}).Draw(t, "version")
+	c.Version = rapid.SampledFrom([]int{0, 0, 0, 1, 1, 2, 2, 3, 4, 5, 6, 7, 8}).Draw(t, "version")
 	c.Human = rapid.Bool().Draw(t, "human")
 	c.InStream = rapid.SampledFrom([]bool{false, false, true}).Draw(t, "instream")
 	for k := rapid.SampledFrom([]int{0, 1, 2, 3}).Draw(t, "nedits"); k > 0; k-- {
@@ -120,6 +121,13 @@ func classify(c *Case) (bool, []string) {
 		add(o.flags[k] && o.n > maxFan*maxFan, k+">4096")
 	}
 	add(o.flags["negative-block>=4096-then-more"], "negative-block>=4096-then-more")
+	for _, v := range versions {
+		add(o.flags["pdf-"+v.String()], "pdf-"+v.String())
+	}
+	for _, k := range []string{"nametree-in-1.2", "numtree-in-1.3", "below-spec-version", "version-error-below-spec"} {
+		add(o.flags[k], k)
+		add(o.flags[k] && o.n > maxFan, k+">64")
+	}
 	add(o.ilLookups > 0, "lookup-inside-all")
 	add(o.ilLookups > 0 && o.n > maxFan, "lookup-inside-all>64")
 	add(o.ilLookups > 0 && o.n > maxFan*maxFan, "lookup-inside-all>4096")
@@ -221,4 +229,47 @@ func TestNumSigns(t *testing.T) {
 		}
 	}
 	st.Note("enumerated %d sign-regime cases per round (regimes all-negative / all-non-negative / mixed x 3 placements x %d sizes, plus trees crossing 4096)", len(items), len(sizes))
+}
+
+// TestVersions enumerates target document versions 1.0-2.0 x tree kind x
+// sizes 0, 1, 64, 65, 200 (names: Write and WriteMap); the usual oracle
+// applies wherever a tree is written, see specVersion for what may be refused.
+func TestVersions(t *testing.T) {
+	st := vt.NewStats(property, "version")
+	idx := 0
+	for round := 0; round < vt.Scale(1, 4); round++ {
+		for v := range versions {
+			for _, tree := range []string{"name", "num"} {
+				for _, n := range []int{0, 1, 64, 65, 200} {
+					for _, useMap := range []bool{false, true} {
+						if useMap && tree != "name" {
+							continue
+						}
+						idx++
+						if !vt.Mine(idx) {
+							continue
+						}
+						c := Case{Tree: tree, N: n, Style: idx % 5, UseMap: useMap, Version: v,
+							Seed:     vt.Seed()*1000003 + uint64(idx)*104729,
+							Pool:     []gen.O{{T: "int", I: int64(idx)}, {T: "str", S: gen.Hex("v")}},
+							Human:    idx%2 == 0,
+							InStream: idx%3 == 0,
+						}
+						if idx%4 == 1 {
+							c.Edits = []Edit{{Kind: idx % 3, I: idx * 13, J: idx * 7}}
+						}
+						err := vt.Guard(func() error { return checkCase(&c) })
+						_, classes := classify(&c)
+						st.Eval(vt.Hash(&c), c.obs.n > 0 && versions[v] < pdf.V1_4, classes...)
+						st.Sample(func() any { return render(&c) })
+						if err != nil {
+							vt.Violation(property, treeProp.Kind, &c, err.Error())
+							t.Fatalf("%v", err)
+						}
+					}
+				}
+			}
+		}
+	}
+	st.Note("enumerated all %d document versions x {name, num} x sizes {0, 1, 64, 65, 200} (names also through WriteMap)", len(versions))
 }
